@@ -15,6 +15,7 @@ import FastTicc.Model.Heap
 import FastTicc.Model.Run
 import FastTicc.Model.Final
 import FastTicc.Model.FrontEnd
+import FastTicc.Model.OptPhase
 
 open FastTicc FastTicc.Proto
 
@@ -133,6 +134,8 @@ structure RoundOracle where
   spreads : List Rat
   order : List Nat
   picks : List (List Nat)
+  raws : List (List Rat) := []      -- raw (compressed) solver outputs, one per cluster; `[]` = not recorded
+  eps : Rat := 0
 
 def parseRound? (blk : String) : Option RoundOracle :=
   match blk.splitOn "#" with
@@ -142,15 +145,45 @@ def parseRound? (blk : String) : Option RoundOracle :=
     let spreads ← parseRats? sp
     let order ← parseNats? od
     let picks ← parseNatss? pk
-    pure ⟨thetas, logdets, spreads, order, picks⟩
+    pure ⟨thetas, logdets, spreads, order, picks, [], 0⟩
+  | [th, ld, sp, od, pk, rw, ep] => do
+    let thetas ← parseListWith parseRatss? "|" th
+    let logdets ← parseRats? ld
+    let spreads ← parseRats? sp
+    let order ← parseNats? od
+    let picks ← parseNatss? pk
+    let raws ← parseRatss? rw
+    let eps ← parseRat? ep
+    pure ⟨thetas, logdets, spreads, order, picks, raws, eps⟩
   | _ => none
+
+/-- MRF entry the run model reads: reconstructed by the model from the raw solver output when that was
+recorded (`OptPhase.reconstruct`), the recorded matrix otherwise. -/
+def thetaOf (ro : RoundOracle) (k i j : Nat) : Rat :=
+  ((ro.thetas.getD k []).getD i []).getD j 0
+
+/-- replace the recorded MRFs of a round by the ones the model reconstructs from the raw solver
+outputs (computed once, stored as rows). -/
+def materialise (d : Nat) (ro : RoundOracle) : RoundOracle :=
+  if ro.raws.isEmpty then ro else
+  { ro with thetas := ro.raws.map fun v =>
+      (List.range d).map fun i => (List.range d).map fun j => OptPhase.reconstruct ro.eps v i j }
+
+/-- do the matrices the model reconstructs from the raw solver outputs equal the recorded MRFs (the
+implementation's `train_inverse`) entry for entry?  `-` when no raw output was recorded. -/
+def rawCheck (d : Nat) (rounds : List RoundOracle) : String :=
+  if rounds.all (fun ro => ro.raws.isEmpty) then "-" else
+  let bad := (List.range rounds.length).filter fun r =>
+    let ro := rounds.getD r ⟨[], [], [], [], [], [], 0⟩
+    !ro.raws.isEmpty && (materialise d ro).thetas != ro.thetas
+  if bad.isEmpty then "rawok" else "rawdiff:" ++ showNats bad
 
 def replayRun (T d K m limit : Nat) (half nwl : Rat) (betas : List Rat) (data : List (List Rat))
     (init : List Nat) (rounds : List RoundOracle) : String :=
   let inp : Run.Input Rat := ⟨T, d, K, m, matFn data, betas, half, nwl⟩
-  let get (r : Nat) : RoundOracle := rounds.getD r ⟨[], [], [], [], []⟩
+  let get (r : Nat) : RoundOracle := rounds.getD r ⟨[], [], [], [], [], [], 0⟩
   let orc : Run.Oracles Rat :=
-    { theta := fun r k i j => (((get r).thetas.getD k []).getD i []).getD j 0
+    { theta := fun r k i j => thetaOf (get r) k i j
       logDet := fun r k => (get r).logdets.getD k 0
       spread := fun r k => (get r).spreads.getD k 0
       order := fun r => (get r).order
@@ -162,11 +195,12 @@ def replayRun (T d K m limit : Nat) (half nwl : Rat) (betas : List Rat) (data : 
 /-- whole-result replay: the run of `replayRun` followed by the result assembly (`Final.report`).
 Output: `ok rounds labels cost all total mean median clusterMeans clusterMedians params bic ch fitted`. -/
 def replayFit (T d K m limit : Nat) (half nwl logT thr : Rat) (biased : Bool) (betas : List Rat)
-    (data : List (List Rat)) (init : List Nat) (rounds : List RoundOracle) : String :=
+    (data : List (List Rat)) (init : List Nat) (rounds0 : List RoundOracle) : String :=
   let inp : Run.Input Rat := ⟨T, d, K, m, matFn data, betas, half, nwl⟩
-  let get (r : Nat) : RoundOracle := rounds.getD r ⟨[], [], [], [], []⟩
+  let rounds := rounds0.map (materialise d)
+  let get (r : Nat) : RoundOracle := rounds.getD r ⟨[], [], [], [], [], [], 0⟩
   let orc : Run.Oracles Rat :=
-    { theta := fun r k i j => (((get r).thetas.getD k []).getD i []).getD j 0
+    { theta := fun r k i j => thetaOf (get r) k i j
       logDet := fun r k => (get r).logdets.getD k 0
       spread := fun r k => (get r).spreads.getD k 0
       order := fun r => (get r).order
@@ -177,7 +211,7 @@ def replayFit (T d K m limit : Nat) (half nwl logT thr : Rat) (biased : Bool) (b
     " ".intercalate [s!"ok {rep.rounds}", showNats rep.labels, showRat rep.cost, showRats rep.agg.all,
       showRat rep.agg.total, showRat rep.agg.mean, showRat rep.agg.median, showRats rep.agg.clusterMean,
       showRats rep.agg.clusterMedian, toString rep.params, showRat rep.bic, showRat rep.ch,
-      showNats o.final.fitted]
+      showNats o.final.fitted, rawCheck d rounds0]
   | .error e => s!"err {e}"
 
 /-- front-end replay: raw series in, per-series padded label lists out (`FrontEnd.single` / `FrontEnd.joint`).
@@ -185,9 +219,9 @@ Output: `ok rounds labelLists cost total bic ch`. -/
 def replayFront (isJoint masked : Bool) (W K m limit : Nat) (half nwl logT thr : Rat) (biased : Bool)
     (betas : List Rat) (series : List (List (List Rat))) (init : List Nat) (rounds : List RoundOracle) : String :=
   let a : FrontEnd.Args Rat := ⟨W, K, m, limit, fun i => betas.getD i 0, biased, half, logT, thr, nwl⟩
-  let get (r : Nat) : RoundOracle := rounds.getD r ⟨[], [], [], [], []⟩
+  let get (r : Nat) : RoundOracle := rounds.getD r ⟨[], [], [], [], [], [], 0⟩
   let orc : Run.Oracles Rat :=
-    { theta := fun r k i j => (((get r).thetas.getD k []).getD i []).getD j 0
+    { theta := fun r k i j => thetaOf (get r) k i j
       logDet := fun r k => (get r).logdets.getD k 0
       spread := fun r k => (get r).spreads.getD k 0
       order := fun r => (get r).order
